@@ -54,7 +54,7 @@ ValueOK(S, k, c) ==
     \/ ~c.xnone /\ LenPartOK(S, k, c) /\ StrPartOK(S, k, c) /\ ItemLenOK(S, k, c) /\ ItemStrOK(S, k, c)
 
 \* an unguarded atom on an optional x would raise in Python when x is None: such scenarios are not generated
-WellGuarded(S) == S.opt => \A a \in FlattenTo(S.cls, Depth(S)) : a.g \in SameGuards
+WellGuarded(S) == S.opt => \A a \in FlattenTo(S.cls, Depth(S)) : a.g \in SameGuards \cup ChainedGuards
 
 SpecValid(S, c) == c.mut = "none" /\ c.k \in 1..Depth(S) /\ ValueOK(S, c.k, c)
 
@@ -108,7 +108,7 @@ YChoices(S) == IF HasForeignGuard(S) THEN {TRUE, FALSE} ELSE {TRUE}
 GoodChars(S, k) ==
     LET ps == ExpectedPats(S, k, StringSlot(S))
         hasLen == \E a \in SlotAtoms(S, k, StringSlot(S)) : a.k = "len"
-    IN  {"b"} \cup (IF hasLen THEN {} ELSE {ch \in SpecialChars : ps # {} /\ \A p \in ps : PatAllows(p, CharCP(ch))})
+    IN  {"b"} \cup (IF hasLen THEN {} ELSE {ch \in SpecialChars \cup {"a", "c"} : ps # {} /\ \A p \in ps : PatAllows(p, CharCP(ch))})
 BadChars(S, k) ==
     LET ps == ExpectedPats(S, k, StringSlot(S))
         hasLen == \E a \in SlotAtoms(S, k, StringSlot(S)) : a.k = "len"
